@@ -28,7 +28,9 @@ MANIFEST = {
             "(flag = the point is none of the four end points), "
             "li_collinear_sub, li_collinear_all_collinear and li_collinear_exact (overlap ends lie on both segments; all four end points collinear; "
             "the overlap is exactly the common part, S p n S q = S(x,y)), "
-            "li_collinear_nondegenerate_partial (overlap ends distinct when both operands have positive length; li_zero_length_witness is the K12 counterexample), "
+            "li_collinear_nondegenerate_partial (overlap ends distinct when both operands have positive length; li_zero_length_witness is the K12 counterexample; "
+            "li_collinear_nondegenerate_partial_witness: each of the two hypotheses is needed on its own, the real code returns the degenerate "
+            "Collinear answer on both witnesses = open known finding K12), "
             "li_symm (argument order: same class, equal single point and flag, overlap equal up to direction). The correspondence compares "
             "class, copied end points and overlaps for equality in both operand orders, the proper point within a conditioning-aware bound and inside both "
             "bounding boxes, and agreement with Line::intersects.",
